@@ -209,6 +209,10 @@ fn hostile_payload(rng: &mut impl Rng, ty: &[u8; 4]) -> Vec<u8> {
     }
 }
 
+pub fn hostile_payload_pub(rng: &mut impl Rng, ty: &[u8; 4]) -> Vec<u8> {
+    hostile_payload(rng, ty)
+}
+
 /// A CRC-valid chunk stream with arbitrary order of types and adversarial payloads.
 pub fn hostile_stream(rng: &mut impl Rng) -> Vec<u8> {
     let mut v = SIG.to_vec();
